@@ -281,6 +281,9 @@ class Prov(object):
                     return b
                 return ('FILE', b[1])
             if b[0] in ('SAME', 'VIEW'):
+                if b[1] is not None and b[1].startswith('global:'):
+                    # tracked module globals are Python containers: a slice of a list is a new list
+                    return FRESH if isinstance(e.slice, ast.Slice) else UNK
                 if self.basic_index(e.slice):
                     return ('VIEW', b[1])
                 return UNK
